@@ -245,6 +245,19 @@ def run(ck):
         isinstance(c.func, ast.Attribute) and c.func.attr == "pop" and dotted(c.func.value) == CNT
         for nd in cfg.nodes for c in node_calls(nd))
     ck.ob("R3", "BoundedDict.__delitem__:counter-removed", delc, m.where(fn), "use counter of the deleted key is kept")
+    # bookkeeping follows the removal: `del store[key]` raises KeyError for an absent key, and whatever was updated before it
+    # stays updated (size one too small: the next evictions come late and the bound is exceeded)
+    books = [nd for nd in cfg.nodes if nd.kind == "stmt" and (
+        (isinstance(nd.ast, ast.AugAssign) and dotted(nd.ast.target) == SZ) or
+        (isinstance(nd.ast, ast.Assign) and any(dotted(t) == SZ for t in nd.ast.targets)) or
+        (isinstance(nd.ast, ast.Delete) and any(isinstance(t, ast.Subscript) and dotted(t.value) == CNT for t in nd.ast.targets)) or
+        any(isinstance(c.func, ast.Attribute) and c.func.attr in ("pop", "clear") and dotted(c.func.value) == CNT for c in node_calls(nd)))]
+    guarded = lambda b: any(t.kind == "test" and t.id in dom.get(b.id, ()) and kp in norm(t.ast) and
+                            isinstance(t.ast, ast.Compare) and isinstance(t.ast.ops[0], (ast.In, ast.NotIn)) and D in norm(t.ast.comparators[0])
+                            for t in cfg.nodes)
+    ok = all(any(d.id in dom.get(b.id, ()) for d in dels) or guarded(b) for b in books)
+    ck.ob("R3", "BoundedDict.__delitem__:bookkeeping-after-removal", ok, m.where(fn),
+          "size/counter are updated before `del %s[%s]`; for an absent key the KeyError leaves them changed although nothing was removed" % (D, kp))
     # the callback must be called on every successful deletion path when configured
     cb_on_path = cfg.must_pass(lambda nd: nd in cbn or (nd.kind == "test" and CB in norm(nd.ast)))[cfg.exit.id]
     ck.ob("R2", "BoundedDict.__delitem__:callback-present", cb_on_path, m.where(fn),
